@@ -227,6 +227,183 @@ def run_loop(args):
     return {"init": {"sn0": 0}, "ev": ev, "left": len(q[1]) + len(q[2])}
 
 
+class Ticker:
+    """runs the real periodic_maintenance coroutine of a handler under virtual time: asyncio.sleep is replaced by a future the
+    harness resolves, so that each wake-up is one step whose sends are observed"""
+
+    def __init__(self, handler):
+        self.loop = asyncio.new_event_loop()
+        self.real_sleep = asyncio.sleep
+        self.waiters = []
+        ticker = self
+
+        async def fake_sleep(delay, result=None):
+            fut = ticker.loop.create_future()
+            ticker.waiters.append(fut)
+            await fut
+            return result
+
+        self.fake_sleep = fake_sleep
+        self.task = None
+        self.h = handler
+
+    def _run_pending(self):
+        asyncio.sleep = self.fake_sleep
+        try:
+            self.loop.run_until_complete(self.real_sleep(0))
+            self.loop.run_until_complete(self.real_sleep(0))
+        finally:
+            asyncio.sleep = self.real_sleep
+
+    def tick(self):
+        """one wake-up: the first call starts the coroutine (it acts before its first sleep)"""
+        if self.task is None:
+            self.task = self.loop.create_task(self.h.periodic_maintenance())
+        elif self.waiters:
+            self.waiters.pop(0).set_result(None)
+        self._run_pending()
+
+    def close(self):
+        if self.task is not None:
+            self.task.cancel()
+            try:
+                self.loop.run_until_complete(self.task)
+            except BaseException:  # noqa
+                pass
+        self.loop.close()
+
+
+def run_active(args):
+    """worker: handler 1 active (its real periodic_maintenance under virtual time), handler 2 passive, back to back; a script
+    of steps: ("tick",), ("deliver", who), ("lose", who), ("inject", who, m).  Events are recorded like in run_loop, a tick
+    as a pseudo datagram {"tick": True}"""
+    seed, script = args
+    import random
+    core.setup_repo_path()
+    rng = random.Random(seed)
+    suts = {1: Sut(rng), 2: Sut(rng)}
+    tk = Ticker(suts[1].h)
+    q = {1: [], 2: []}
+    ev = []
+
+    def forward(who, sent_raw):
+        for raw in sent_raw:
+            raw = bytes.fromhex(raw)
+            c = classify_sent(raw)
+            consistent = c["ok"] and not (c["f"]["opt"] and c["optlen"] == 0 and c["payload"] != "none")
+            m2 = {"valid": consistent, "clean": consistent, "f": c["f"], "sn": max(c["sn"], 0), "optlen": c["optlen"], "payload": "none", "radio": ""}
+            q[3 - who].append((raw, m2 if consistent else dict(GARBAGE)))
+
+    try:
+        for st in script:
+            if st[0] == "tick":
+                suts[1].tr.sent.clear()
+                pre = bool(suts[1].h.hstrp_connected)
+                out = "ok"
+                try:
+                    tk.tick()
+                except Exception as ex:  # noqa
+                    out = "raise:" + type(ex).__name__
+                sent = [d.hex() for d, _ in suts[1].tr.sent]
+                ev.append({"who": 1, "tick": True, "pre": pre, "outcome": out, "sent": [classify_sent(bytes.fromhex(x)) for x in sent],
+                           "connected": bool(suts[1].h.hstrp_connected)})
+                forward(1, sent)
+            elif st[0] == "deliver" and q[st[1]]:
+                data, m = q[st[1]].pop(0)
+                e = suts[st[1]].recv(data, m, who=st[1])
+                forward(st[1], e["sent_raw"])
+                e = strip(e)
+                e["tick"] = False
+                ev.append(e)
+            elif st[0] == "lose" and q[st[1]]:
+                q[st[1]].pop(0)
+            elif st[0] == "inject":
+                q[st[1]].append((suts[st[1]].build(st[2]), st[2]))
+    finally:
+        tk.close()
+    return {"ev": ev, "connected": [bool(suts[1].h.hstrp_connected), bool(suts[2].h.hstrp_connected)], "left": len(q[1]) + len(q[2])}
+
+
+def active_phase(ctx):
+    """growth beyond the statement (spec/MC_HSTRPActive.tla): the active peer's timer.  Design: TLC checks that with a quiet
+    environment and finitely many losses both ends connect for good, and shows that a CLOSE crossing the connect handshake (or a
+    lost acknowledgement of a close) leaves the link half open for ever - nothing supervises it (heartbeat supervision is a
+    TODO in the code).  Binding: the real coroutine under virtual time, every wake-up and delivery compared with the model."""
+    with open(os.path.join(ctx.rundir, "MC_HSTRPActive_quiet.cfg"), "w") as f:
+        f.write(ACTIVECFG.format(inject=0, lose=2 if ctx.quick else 3, conn="FALSE"))
+    res = core.run_tlc(ctx, "MC_HSTRPActive", "MC_HSTRPActive_quiet.cfg", timeout=900, workers=8)
+    ctx.note("active_peer_quiet_environment_connects_for_good", bool(res.ok and not res.violated))
+    if res.violated:
+        ctx.outside(f"active peer: even with a quiet environment the model does not connect for good ({res.violated})")
+    with open(os.path.join(ctx.rundir, "MC_HSTRPActive_env.cfg"), "w") as f:
+        f.write(ACTIVECFG.format(inject=2, lose=0, conn="FALSE"))
+    res2 = core.run_tlc(ctx, "MC_HSTRPActive", "MC_HSTRPActive_env.cfg", timeout=900, workers=8)
+    ctx.note("active_peer_half_open_counterexample", res2.violated or "none")
+    # ---- the real handlers
+    msgs = [msg(("close",)), msg(("hb",)), msg((), sn=7), msg(("conn",))]
+    jobs = []
+    n = 120 if ctx.quick else 2000
+    for i in range(n):
+        quiet = i % 3 == 0
+        script = []
+        for _ in range(ctx.rng.randrange(6, 40)):
+            r = ctx.rng.random()
+            if r < 0.25:
+                script.append(("tick",))
+            elif r < 0.85:
+                script.append(("deliver", ctx.rng.choice([1, 2])))
+            elif r < 0.93:
+                script.append(("lose", ctx.rng.choice([1, 2])))
+            elif not quiet:
+                script.append(("inject", ctx.rng.choice([1, 2]), ctx.rng.choice(msgs[:3] if i % 2 else msgs)))
+        # then the environment is quiet and the channel reliable: enough wake-ups and deliveries to settle
+        script += [("tick",), ("deliver", 2), ("deliver", 1), ("deliver", 2), ("deliver", 1)] * 6
+        jobs.append((ctx.seed * 313 + i, script))
+    with Pool(core.NCPU) as pool:
+        runs = pool.map(run_active, jobs, chunksize=8)
+    half_open = quiet_bad = ticks = 0
+    for (seed, script), r in zip(jobs, runs):
+        injected = any(s[0] == "inject" for s in script)
+        for e in r["ev"]:
+            if e.get("tick"):
+                ticks += 1
+                ctx.count(core.digest(["tick", e["pre"], [x["f"] for x in e["sent"]]]))
+                # the model's Tick: exactly one CONNECT with S/N 0 while the link is down, nothing while it is up
+                want = [] if e["pre"] else [{"conn": True, "sn": 0}]
+                got = [{"conn": bool(x["f"]["conn"] and not x["f"]["ack"]), "sn": x["sn"]} for x in e["sent"]]
+                if e["outcome"] != "ok" or got != want or e["connected"] != e["pre"]:
+                    ctx.model_drift(f"MC_HSTRPActive: a wake-up of periodic_maintenance (link {'up' if e['pre'] else 'down'}) sent {got}, outcome {e['outcome']}; the model says {want}")
+        if r["connected"] != [True, True]:
+            if injected:
+                half_open += 1
+            else:
+                quiet_bad += 1
+    ctx.note("active_peer_runs", len(runs))
+    ctx.note("active_peer_wakeups", ticks)
+    ctx.note("active_peer_runs_ending_half_open_or_down", half_open)
+    if ticks < 100:
+        raise core.MachineryError("the active-peer phase hardly ever woke the coroutine up")
+    if quiet_bad:
+        ctx.outside(f"active peer: {quiet_bad} runs with a quiet environment did not end with both ends connected although the model says they must")
+    if half_open:
+        ctx.outside("active peer: after a CLOSE crossing the connect handshake (or a lost acknowledgement) the link stays half open or down for ever although both peers keep running - "
+                    "nothing supervises it (TLC counterexample to EventuallyConnectedForGood; heartbeat supervision is a TODO in the code)")
+
+
+ACTIVECFG = """SPECIFICATION ASpec
+CONSTANTS
+  AckTheAcks = FALSE
+  Inject = {inject}
+  Lose = {lose}
+  InFlight = 2
+  InjectConnect = {conn}
+PROPERTY EventuallyConnectedForGood
+PROPERTY QuietWhenConnected
+INVARIANT ActiveQueuesBounded
+CHECK_DEADLOCK FALSE
+"""
+
+
 CFG = """SPECIFICATION Spec
 CONSTANTS
   AckTheAcks = FALSE
@@ -368,6 +545,7 @@ def run(ctx):
             ctx.count(core.digest([e["m"], e["out"]["sent"], e["out"]["connected"]]))
     for part in core.chunks(hist, 500):
         judge(ctx, part, ctx.validate_traces("Trace_HSTRP", "Trace_HSTRP.cfg", part), "random history")
+    active_phase(ctx)
 
 
 def replay(ctx, rec):
